@@ -1,3 +1,4 @@
 import EdzedProofs.Basic
+import EdzedProofs.Burst
 import EdzedProofs.Counter
 import EdzedProofs.Simulate
